@@ -1,4 +1,5 @@
 import Mochi.Model.Broker
+import Mochi.Props.C15
 /-!
 # C14 — Session present flag and session takeover behave per clean start
 
@@ -41,5 +42,36 @@ theorem C14_clean_discards_subs (s : Server) (e : Nat) (h : e < s.objs.length)
   unfold unsubscribeClient
   simp only [hto, if_true]
   simp [getObj, setObj, h]
+
+/-! ### Clean Start leaves no subscription behind (`Mochi/Lemmas/BrokerIndexSync.lean`) -/
+
+/-- after a CONNECT with Clean Start for client id `k.id` at the end of any history (respecting `OpFresh` and the
+    discipline `SchedOK` of the schedule ops), if the new connection's session is the registered one, the topic index
+    holds no non-inline entry (plain or shared) for that client id -/
+theorem C14_clean_start_leaves_no_subscription (caps : Caps) (ops : List Op) (conn : Nat) (k : Connect)
+    (hf : OpsFresh (init caps) (ops ++ [.connect conn k])) (hok : OpsSchedOK (init caps) (ops ++ [.connect conn k]))
+    (hcl : k.clean = true)
+    (hadm : (k.id, (run (init caps) ops).objs.length) ∈ (run (init caps) (ops ++ [.connect conn k])).clients)
+    (f : Str) : (k.id, f) ∉ indexEntries (run (init caps) (ops ++ [.connect conn k])).topics := by
+  obtain ⟨hf1, hf2⟩ := OpsFresh_append hf
+  obtain ⟨hok1, _⟩ := OpsSchedOK_append hok
+  have h := SyncInv_run caps ops hf1 hok1
+  have hw := WF_run caps ops hf1
+  have hw' := WF_run caps _ hf
+  refine (IndexSync_run_partial caps _ hf hok).no_entry_of_no_subs k.id ?_ f
+  intro i hi
+  have e1 := assocGet_of_mem_nodup _ _ _ hw'.clients_nodup hi
+  have e2 := assocGet_of_mem_nodup _ _ _ hw'.clients_nodup hadm
+  rw [e1] at e2
+  cases e2
+  rw [run_append]
+  exact step_connect_clean_subs h hw conn k hf2 hcl
+
+/-- non-vacuity (`demoTakeover` of `Mochi/Props/C15.lean`: `B` is taken over with Clean Start by connection 3, object
+    3): the hypotheses hold, `B`'s entry is gone and the index is not empty -/
+example : OpsFresh (init {}) demoTakeover := by decide
+example : OpsSchedOK (init {}) demoTakeover := by decide
+example : (demoB, (run (init {}) (demoTakeover.take 4)).objs.length) ∈ (run (init {}) demoTakeover).clients := by decide
+example : indexEntries (run (init {}) demoTakeover).topics = [(demoA, [97]), (demoA, demoShare)] := by decide
 
 end Mochi.Broker
